@@ -1,85 +1,45 @@
 /-
   C09 — chaining InlineInBlock and BlockInInline: the output of `inlineInBlock` (on a tree of shape
-  `preIIB` without running inline children) satisfies the hypotheses of the `blockInInline` lemmas.
+  `preIIB`) satisfies the hypotheses of the `blockInInline` lemmas (running inline boxes are opaque for
+  `blockInInline`, so no hypothesis on running inline boxes is needed).
 -/
 import WR.C09.LemmasIIB
 import WR.C09.LemmasBII
 namespace WR.C09
 
-/-- no child is a running inline box -/
+/-- no child is a running inline box.  No longer a hypothesis of anything in this file (running inline
+    boxes are opaque for `blockInInline`); the definition is kept for the files that still mention it. -/
 def noRunInl (_ : Ty) (_ : Attrs) (kids : List Box) : Bool :=
   kids.all (fun c => !(c.ty == .inline && c.a.running))
 
-/-! ### `noRunningInline` from `allN noRunInl` (independent of the pass) -/
-
-mutual
-  theorem nri_of_allN : (k : Box) → k.a.running = false → allN noRunInl k = true → noRunningInline k = true
-    | .mk ty a kids cols, hr, h => by
-      simp only [Box.a] at hr
-      rw [allN, hr, Bool.false_or, Bool.and_eq_true] at h
-      rw [noRunningInline]; exact nriList_of_allN kids h.1 h.2
-  theorem nriList_of_allN : (ks : List Box) →
-      ks.all (fun c => !(c.ty == .inline && c.a.running)) = true → allNList noRunInl ks = true →
-      noRunningInlineList ks = true
-    | [], _, _ => by rw [noRunningInlineList]
-    | c :: cs, h1, h2 => by
-      rw [List.all_cons, Bool.and_eq_true] at h1
-      rw [allNList, Bool.and_eq_true] at h2
-      rw [noRunningInlineList, nriList_of_allN cs h1.2 h2.2, Bool.and_true]
-      by_cases hi : (c.ty == .inline) = true
-      · have g := h1.1
-        simp [hi] at g
-        simp [hi, g, nri_of_allN c g h2.1]
-      · simp [hi]
-end
-
 /-! ### the invariant -/
 
-/-- head condition (depends only on `ty` and `a`): not a running inline box, not a running line box -/
-def CHead (x : Box) : Prop :=
-  (x.ty == .inline && x.a.running) = false ∧ ((x.ty == .line) = true → x.a.running = false)
+/-- head condition (depends only on `ty` and `a`): not a running line box -/
+def CHead (x : Box) : Prop := (x.ty == .line) = true → x.a.running = false
 
-/-- the three tree predicates below the box -/
-def CAll (x : Box) : Prop :=
-  allN linesNotRunning x = true ∧ allN linesNoRunningInline x = true ∧ allN noRunInl x = true
+/-- the tree predicate below the box -/
+def CAll (x : Box) : Prop := allN linesNotRunning x = true
 
 def CK (x : Box) : Prop := CHead x ∧ CAll x
 
 theorem CAll_mk (ty : Ty) (a : Attrs) (kids cols : List Box) (hr : a.running = false)
     (hk : ∀ k ∈ kids, CK k) : CAll (.mk ty a kids cols) := by
-  refine ⟨?_, ?_, ?_⟩
-  · rw [allN_mk, hr, Bool.false_or, Bool.and_eq_true]
-    refine ⟨?_, ?_⟩
-    · simp only [linesNotRunning, List.all_eq_true]
-      intro k hk'
-      cases hl : (k.ty == Ty.line) with
-      | false => simp
-      | true => have := (hk k hk').1.2 hl; simp [this]
-    · rw [allNList_iff]; exact fun k hk' => (hk k hk').2.1
-  · rw [allN_mk, hr, Bool.false_or, Bool.and_eq_true]
-    refine ⟨?_, ?_⟩
-    · simp only [linesNoRunningInline, List.all_eq_true]
-      intro k hk'
-      cases hl : (k.ty == Ty.line) with
-      | false => simp
-      | true =>
-        have := nri_of_allN k ((hk k hk').1.2 hl) (hk k hk').2.2.2
-        simp [this]
-    · rw [allNList_iff]; exact fun k hk' => (hk k hk').2.2.1
-  · rw [allN_mk, hr, Bool.false_or, Bool.and_eq_true]
-    refine ⟨?_, ?_⟩
-    · simp only [noRunInl, List.all_eq_true]
-      intro k hk'
-      have := (hk k hk').1.1
-      simp [this]
-    · rw [allNList_iff]; exact fun k hk' => (hk k hk').2.2.2
+  unfold CAll
+  rw [allN_mk, hr, Bool.false_or, Bool.and_eq_true]
+  refine ⟨?_, ?_⟩
+  · simp only [linesNotRunning, List.all_eq_true]
+    intro k hk'
+    cases hl : (k.ty == Ty.line) with
+    | false => simp
+    | true => have := (hk k hk').1 hl; simp [this]
+  · rw [allNList_iff]; exact fun k hk' => (hk k hk').2
 
 theorem CK_lineBox (pa : Attrs) (line : List Box) (hl : ∀ l ∈ line, CK l) : CK (lineBox pa line) :=
-  ⟨⟨by simp [lineBox, anon, Box.ty], fun _ => rfl⟩, CAll_mk _ _ _ _ rfl hl⟩
+  ⟨fun _ => rfl, CAll_mk _ _ _ _ rfl hl⟩
 
 theorem CK_anonBlock (pa : Attrs) (line : List Box) (hl : ∀ l ∈ line, CK l) :
     CK (anonBlock pa [lineBox pa line]) := by
-  refine ⟨⟨by simp [anonBlock, anon, Box.ty], fun _ => rfl⟩, CAll_mk _ _ _ _ rfl ?_⟩
+  refine ⟨fun _ => rfl, CAll_mk _ _ _ _ rfl ?_⟩
   intro k hk
   rw [List.mem_singleton] at hk; subst hk
   exact CK_lineBox pa line hl
@@ -136,14 +96,14 @@ theorem iibLoop_CK (pa : Attrs) : ∀ (cs line out r : List Box),
 /-! ### the pass -/
 
 mutual
-  theorem iib_CAll_aux : ∀ (b b' : Box), allN preIIB b = true → allN noRunInl b = true →
+  theorem iib_CAll_aux : ∀ (b b' : Box), allN preIIB b = true →
       inlineInBlock b = .ok b' → b'.ty = b.ty ∧ b'.a = b.a ∧ CAll b'
-    | .mk ty a kids cols, b', h, hn, hb => by
+    | .mk ty a kids cols, b', h, hb => by
       rw [inlineInBlock] at hb
-      rw [allN_mk] at h hn
+      rw [allN_mk] at h
       cases hr : a.running
-      · rw [hr] at h hn hb
-        simp only [Bool.false_or, Bool.and_eq_true] at h hn
+      · rw [hr] at h hb
+        simp only [Bool.false_or, Bool.and_eq_true] at h
         cases kids with
         | nil =>
           simp [pure, Except.pure] at hb
@@ -157,12 +117,8 @@ mutual
             have hH : ∀ k ∈ k0 :: kt, CHead k := by
               intro k hk
               have h1 := (preIIB_kids h.1).1 k hk
-              have h2 : (!(k.ty == Ty.inline && k.a.running)) = true := by
-                have := hn.1
-                simp only [noRunInl, List.all_eq_true] at this
-                exact this k hk
-              exact ⟨by cases hx : (k.ty == Ty.inline && k.a.running) <;> simp_all, fun hl => absurd (eq_of_beq hl) h1⟩
-            have hK := iibList_CK_aux (k0 :: kt) ks h.2 hn.2 hH hl
+              exact fun hl => absurd (eq_of_beq hl) h1
+            have hK := iibList_CK_aux (k0 :: kt) ks h.2 hH hl
             cases hbc : isBlockContainer ty
             · simp only [hl, hbc, bind, Except.bind, pure, Except.pure, Bool.not_false, if_true] at hb
               injection hb with hb
@@ -183,20 +139,20 @@ mutual
       · rw [hr] at hb
         simp [pure, Except.pure] at hb
         subst hb
-        exact ⟨rfl, rfl, by simp [allN_mk, hr], by simp [allN_mk, hr], by simp [allN_mk, hr]⟩
+        exact ⟨rfl, rfl, by simp [CAll, allN_mk, hr]⟩
   theorem iibList_CK_aux : ∀ (ks ks' : List Box), allNList preIIB ks = true →
-      allNList noRunInl ks = true → (∀ k ∈ ks, CHead k) →
+      (∀ k ∈ ks, CHead k) →
       inlineInBlockList ks = .ok ks' → ∀ k' ∈ ks', CK k'
-    | [], ks', _, _, _, he => by
+    | [], ks', _, _, he => by
       rw [inlineInBlockList] at he
       simp [pure, Except.pure] at he
       subst he
       exact fun _ h => nomatch h
-    | k :: ks, ks', h, hn, hH, he => by
-      rw [allNList, Bool.and_eq_true] at h hn
+    | k :: ks, ks', h, hH, he => by
+      rw [allNList, Bool.and_eq_true] at h
       rw [inlineInBlockList] at he
       split at he
-      · exact iibList_CK_aux ks ks' h.2 hn.2 (fun x hx => hH x (List.mem_cons_of_mem _ hx)) he
+      · exact iibList_CK_aux ks ks' h.2 (fun x hx => hH x (List.mem_cons_of_mem _ hx)) he
       · cases h1 : inlineInBlock k with
         | error e => simp [h1, bind, Except.bind] at he
         | ok k' =>
@@ -205,8 +161,8 @@ mutual
           | ok kt' =>
             simp [h1, h2, bind, Except.bind, pure, Except.pure] at he
             subst he
-            obtain ⟨hty, ha, hA⟩ := iib_CAll_aux k k' h.1 hn.1 h1
-            have ih := iibList_CK_aux ks kt' h.2 hn.2
+            obtain ⟨hty, ha, hA⟩ := iib_CAll_aux k k' h.1 h1
+            have ih := iibList_CK_aux ks kt' h.2
               (fun x hx => hH x (List.mem_cons_of_mem _ hx)) h2
             intro x hx
             rcases List.mem_cons.1 hx with rfl | hx
@@ -215,32 +171,27 @@ mutual
             · exact ih x hx
 end
 
-/-- item 1 (full version), with the extra facts that the pass keeps `ty`/`a` of the root and
-    preserves `allN noRunInl` -/
+/-- item 1 (full version), with the extra facts that the pass keeps `ty`/`a` of the root -/
 theorem inlineInBlock_lines_strong (b b' : Box) (h : allN preIIB b = true)
-    (hr : allN noRunInl b = true) (hb : inlineInBlock b = .ok b') :
-    b'.ty = b.ty ∧ b'.a = b.a ∧ allN linesNotRunning b' = true ∧
-      allN linesNoRunningInline b' = true ∧ allN noRunInl b' = true :=
-  iib_CAll_aux b b' h hr hb
-
-/-- item 1: after InlineInBlock no line box is running and no line box reaches a running inline box
-    through inline boxes -/
-theorem inlineInBlock_lines (b b' : Box) (h : allN preIIB b = true) (hr : allN noRunInl b = true)
     (hb : inlineInBlock b = .ok b') :
-    allN linesNotRunning b' = true ∧ allN linesNoRunningInline b' = true := by
-  obtain ⟨_, _, h1, h2, _⟩ := iib_CAll_aux b b' h hr hb
-  exact ⟨h1, h2⟩
+    b'.ty = b.ty ∧ b'.a = b.a ∧ allN linesNotRunning b' = true :=
+  iib_CAll_aux b b' h hb
 
-/-- item 2: the two inline passes never fail on a tree of shape `preIIB` without running inline
-    children, keep the root's type and attributes, and establish `bcOK` and `linesClean` -/
-theorem inline_passes_wf (g : Box) (h : allN preIIB g = true) (hr : allN noRunInl g = true) :
+/-- item 1: after InlineInBlock no line box is running -/
+theorem inlineInBlock_lines (b b' : Box) (h : allN preIIB b = true)
+    (hb : inlineInBlock b = .ok b') : allN linesNotRunning b' = true :=
+  (iib_CAll_aux b b' h hb).2.2
+
+/-- item 2: the two inline passes never fail on a tree of shape `preIIB`, keep the root's type and
+    attributes, and establish `bcOK` and `linesCleanR` (`linesClean` with running inline boxes opaque) -/
+theorem inline_passes_wf (g : Box) (h : allN preIIB g = true) :
     ∃ i o, inlineInBlock g = .ok i ∧ blockInInline i = .ok o ∧ o.ty = g.ty ∧ o.a = g.a ∧
-      allN bcOK o = true ∧ allN linesClean o = true := by
+      allN bcOK o = true ∧ allN linesCleanR o = true := by
   obtain ⟨i, hi, hty, ha, hbc, hla⟩ := inlineInBlock_wf g h
-  obtain ⟨hnr, hni⟩ := inlineInBlock_lines g i h hr hi
-  obtain ⟨o, ho, hty', ha'⟩ := blockInInline_total' i hla hni hnr
+  have hnr := inlineInBlock_lines g i h hi
+  obtain ⟨o, ho, hty', ha'⟩ := blockInInline_total' i hla hnr
   exact ⟨i, o, hi, ho, hty'.trans hty, ha'.trans ha,
-    blockInInline_bcOK i o ho hbc hla hni hnr, blockInInline_linesClean' i o ho hla hni hnr⟩
+    blockInInline_bcOK i o ho hbc hla hnr, blockInInline_linesClean' i o ho hla hnr⟩
 
 /-! ### non-vacuity -/
 
@@ -253,12 +204,11 @@ def exCompose : Box :=
       .mk .text { text := "b" } [] []] []] []
 
 example : allN preIIB exCompose = true := by decide
-example : allN noRunInl exCompose = true := by decide
 
 /-- the block is lifted out of the inline box: anonymous block / block / anonymous block -/
 example : ∃ i o, inlineInBlock exCompose = .ok i ∧ blockInInline i = .ok o ∧
-    allN bcOK o = true ∧ allN linesClean o = true ∧
+    allN bcOK o = true ∧ allN linesCleanR o = true ∧ allN linesClean o = true ∧
     (o.kids.map Box.ty) = [.block, .block, .block] :=
-  ⟨_, _, rfl, rfl, by decide, by decide, by decide⟩
+  ⟨_, _, rfl, rfl, by decide, by decide, by decide, by decide⟩
 
 end WR.C09
